@@ -174,6 +174,18 @@ static void kernel(const std::vector<std::string>& t)
     auto b = unhex(t[2]);
     fprintf(OUT, "k crcok %d\n", (int)isCrc32Correct(b.data(), b.size()));
   }
+  else if (k == "overflow")
+  {
+    // does processMsopPkt discard an open frame of n points?  (packet of a wrong length: nothing else happens)
+    RSDecoderParam p; p.wait_for_difop = false;
+    auto d = DecoderFactory<PC>::createDecoder(LidarType::RSM1, p);
+    d->point_cloud_ = std::make_shared<PC>();
+    d->point_cloud_->points.resize((size_t)L(2));
+    d->regCallback([](const Error&) {}, [](uint16_t, double) {});
+    uint8_t b[2] = {0x55, 0xAA};
+    d->processMsopPkt(b, 2);
+    fprintf(OUT, "k overflow %d\n", (int)(d->point_cloud_->points.size() == 0 && L(2) != 0));
+  }
   else fprintf(OUT, "k ? %s\n", k.c_str());
 }
 
